@@ -333,6 +333,16 @@ def expiration(text):
     if not m: refuse(W, f"body not recognised: {body[:300]}")
     return {'shortBelow': int(m.group(1)), 'shortDiv': int(m.group(2)), 'longDiv': int(m.group(3)), 'longMul': int(m.group(4))}
 
+# ------------------------------------------------------------------ simple-mdns: what the responder loops do when send_to fails
+def responder_send(text, where, aw):
+    W = f'{where}: responder_loop'
+    body = fn_body(text, 'responder_loop', W)
+    call = r'sender_socket\.send_to\(&reply,reply_addr\)' + (r'\.await' if aw else '')
+    if len(re.findall(call, body)) != 1: refuse(W, "expected exactly one `sender_socket.send_to(&reply, reply_addr)`")
+    if re.search(call + r'\?;', body): return 'propagate'
+    if re.search(r'if let Err\((\w+)\)=' + call + r'\{log::(error|warn)!\([^;{}]*\);\}', body): return 'log'
+    refuse(W, "treatment of the result of send_to not recognised")
+
 # ------------------------------------------------------------------ output
 def generate(repo):
     del UNTIED[:], TIED[:]
@@ -342,7 +352,8 @@ def generate(repo):
     files = {k: read(p) for k, p in (('hb', 'simple-dns/src/dns/header_buffer.rs'), ('h', 'simple-dns/src/dns/header.rs'),
              ('q', 'simple-dns/src/dns/question.rs'), ('rr', 'simple-dns/src/dns/resource_record.rs'),
              ('m', 'simple-dns/src/dns/rdata/macros.rs'), ('p', 'simple-dns/src/dns/packet.rs'),
-             ('mdns', 'simple-mdns/src/resource_record_manager.rs'))}
+             ('mdns', 'simple-mdns/src/resource_record_manager.rs'),
+             ('rs', 'simple-mdns/src/sync_discovery/simple_responder.rs'), ('ra', 'simple-mdns/src/async_discovery/simple_responder.rs'))}
     if files['p'] is None and files['h'] is None:
         raise OSError(f"{repo}: the sources of simple-dns are not there")
     def need(k, fn):
@@ -365,6 +376,8 @@ def generate(repo):
     pp = attempt('packet.parse', need('p', packet_parse))
     pw = attempt('packet.write', need('p', packet_write))
     ex = attempt('mdns.expiration', need('mdns', expiration))
+    sp = [attempt('mdns.responder_send:sync', need('rs', lambda t: responder_send(t, 'sync_discovery/simple_responder.rs', False))),
+          attempt('mdns.responder_send:tokio', need('ra', lambda t: responder_send(t, 'async_discovery/simple_responder.rs', True)))]
 
     q = lambda s: '"' + s + '"'
     strs = lambda xs: '[' + ', '.join(q(x) for x in xs) + ']'
@@ -438,6 +451,9 @@ def generate(repo):
           f"def expShortDiv : Option Nat := {optn(g(ex, 'shortDiv'))}",
           f"def expLongDiv : Option Nat := {optn(g(ex, 'longDiv'))}",
           f"def expLongMul : Option Nat := {optn(g(ex, 'longMul'))}",
+          "", "/-- simple-mdns `responder_loop` (sync, tokio): a failed `send_to` is logged (\"log\") or returned with `?` (\"propagate\") -/",
+          f"def responderSendSync : Option String := {'none' if sp[0] is None else 'some ' + q(sp[0])}",
+          f"def responderSendTokio : Option String := {'none' if sp[1] is None else 'some ' + q(sp[1])}",
           "", "end Dns.Gen.Env", ""]
     return '\n'.join(L)
 
